@@ -16,6 +16,19 @@ unit rows); UPGrad / DualProj 1e-7 (exact active-set QP on a Gramian regularised
 1/reg_eps); MGDA 1e-6 (Frank-Wolfe iterates on generic inputs, no argmin ties); CAGrad 1e-3 (CLARABEL stops at gap
 1e-8 on a problem whose reduced coordinates depend on SVD signs: argmin accuracy ~ sqrt(gap)); NashMTL 1e-5 (ECOS).
 GradDrop is random per column and hence outside "every deterministic aggregator".
+None of these tolerances depends on the number of inserted zero columns, on the basis (Q) or on the scale.
+
+Families added for the thresholds of the code under test (everything an aggregator compares against a constant must be
+a function of J J^T and must not depend on the layout):
+  'thr'   (orthogonal) wide matrices, n in {16, 32, 64}, with conflicting rows, rescaled so that the largest singular
+          value is threshold * 10^U(-1, 2.5) for threshold in {norm_eps = 1e-4, 100 norm_eps}: around the guard of the
+          normalised Gramian and where every ENTRY is below it while sigma_max is above; Q is Haar or a Householder
+          reflection that maps a row of J onto a coordinate axis (concentrates the row in one entry) or the converse
+          (spreads an axis-aligned... see `_q`).  Cases with |sigma_max/norm_eps - 1| <= 64 (m+n) eps are outside (the
+          guard may fall on either side by rounding).
+  'wide'  (all transformation clauses) scale log-uniform over 1e-12..1e12.
+  'many'  (zerocol) 300 / 3000 / 20000 zero columns appended, prepended or split around the matrix, condition numbers
+          up to 100 for the pinv/eigh based aggregators: no tolerance inside the code may grow with the column count.
 """
 from __future__ import annotations
 
@@ -32,11 +45,13 @@ from .C16 import krum_scores
 RULE = ("aggregator x matrix family (gauss, nonconflict, rowscales over 2 decades, lowrank for the span clause; "
         "'wellcond' cond <= 30 with m <= n for the pinv/eigh based IMTLG, AlignedMTL, ConFIG) x transformation "
         "(Haar-random orthogonal Q from the QR of a Gaussian matrix with sign fix; column permutation; insertion of 1-3 "
-        "zero columns at the start / inside / at the end). PCGrad, Random: torch.manual_seed(case seed) before every "
+        "zero columns at the start / inside / at the end) + the threshold families: orthogonal on wide (n <= 64) "
+        "conflicting matrices with sigma_max around norm_eps and 100 norm_eps under Haar and row-concentrating "
+        "Householder Q; scales log-uniform over 1e-12..1e12; 300..20000 inserted zero columns. PCGrad, Random: torch.manual_seed(case seed) before every "
         "call; NashMTL: a fresh instance per call; Krum: cases whose selection is within 1e-6 of a score tie are "
         "trivial. distinct = (clause, aggregator spec, matrix spec, transformation). non-trivial: m >= 2, n >= 2, "
         "non-zero matrix, transformation not the identity (span: rank < n)")
-BOUNDS = "m <= 6 rows, n <= 8 columns, float64 (float32 for the closed-form aggregators in colperm / zerocol)"
+BOUNDS = "m <= 6 rows, n <= 8 columns (threshold family n <= 64; <= 20000 inserted zero columns), float64 (float32 for the closed-form aggregators in colperm / zerocol)"
 EXHAUSTIVE = "thorough: all column permutations for n = 2..5 (2 + 6 + 24 + 120) for every aggregator of the list"
 
 PREF = {"rand": 5}
@@ -53,7 +68,36 @@ PINV_BASED = {"IMTLG", "AlignedMTL", "ConFIG"}
 CLOSED = {"Mean", "Sum", "Constant", "Random", "Krum", "TrimmedMean"}
 
 
-def _matrix_spec(rng, agg, clause, n_fixed=None):
+def _wide_scale(rng):
+    return 10.0 ** rng.uniform(-12, 12)
+
+
+def _thr_spec(rng, agg):
+    """Wide matrix with conflicting rows whose largest singular value lies around a threshold of the code."""
+    name = agg["name"]
+    m_min = 4 if name == "Krum" else 2
+    n = rng.choice([16, 32, 64])
+    thr = rng.choice([1e-4, 1e-4, 1e-2])
+    smax = thr * 10.0 ** rng.uniform(-1.0, 2.5)
+    if name in PINV_BASED:
+        return {"kind": "wellcond", "m": rng.randint(2, 5), "n": n, "seed": rng.randrange(10**9),
+                "cond": rng.choice([1.0, 3.0, 30.0]), "smax": smax, "dtype": "float64"}
+    return {"kind": rng.choice(["antiparallel", "stationary", "gauss", "imbstationary"]), "m": rng.randint(m_min, 6),
+            "n": n, "seed": rng.randrange(10**9), "smax": smax, "dtype": "float64"}
+
+
+def _matrix_spec(rng, agg, clause, n_fixed=None, wide=False, cond=None):
+    spec = _matrix_spec0(rng, agg, clause, n_fixed)
+    if wide and agg["name"] != "NashMTL":
+        # NashMTL stays at 1e-2..1e2: its ECOS problem contains log(alpha |J J^T|), the solver's absolute accuracy (a
+        # trusted primitive) and its success depend on the scale, so the 1e-5 tolerance is derived for these scales only
+        spec["scale"] = _wide_scale(rng)
+    if cond is not None and spec["kind"] == "wellcond":
+        spec["cond"] = cond
+    return spec
+
+
+def _matrix_spec0(rng, agg, clause, n_fixed=None):
     name = agg["name"]
     m_min = 4 if name == "Krum" else (3 if name == "TrimmedMean" else 2)
     if name in PINV_BASED:
@@ -90,6 +134,14 @@ def cases(tier, seed, focus=None):
         for _ in range(30 if thorough else 4):
             out.append({"clause": "orthogonal", "agg": agg, "matrix": _matrix_spec(rng, agg, "orthogonal"),
                         "qseed": rng.randrange(10**6), "rseed": rng.randrange(10**6)})
+        for j in range(40 if thorough else 8):  # threshold family
+            out.append({"clause": "orthogonal", "agg": agg, "matrix": _thr_spec(rng, agg),
+                        "q": ["haar", "house_row", "house_row", "house_axis"][j % 4], "qrow": rng.randrange(6),
+                        "qseed": rng.randrange(10**6), "rseed": rng.randrange(10**6)})
+        for _ in range(10 if thorough else 2):  # scale family
+            out.append({"clause": "orthogonal", "agg": agg, "matrix": _matrix_spec(rng, agg, "orthogonal", wide=True),
+                        "q": rng.choice(["haar", "house_row"]), "qrow": rng.randrange(6),
+                        "qseed": rng.randrange(10**6), "rseed": rng.randrange(10**6)})
     for agg in LAYOUT_AGGS:
         slow = agg["name"] in ("NashMTL",)
         if thorough:
@@ -113,6 +165,22 @@ def cases(tier, seed, focus=None):
             k = rng.randint(1, 3)
             pos = sorted(rng.choice([0, spec["n"], rng.randint(0, spec["n"])]) for _ in range(k))
             out.append({"clause": "zerocol", "agg": agg, "matrix": spec, "positions": pos, "rseed": rng.randrange(10**6)})
+        for j in range(8 if thorough else 3):  # many zero columns (parameters that influence nothing)
+            spec = _matrix_spec(rng, agg, "zerocol", cond=rng.choice([3.0, 30.0, 100.0]), wide=(j % 3 == 2))
+            count = [20000, 3000, 300][j % 3] if not slow else [3000, 300, 20000][j % 3]
+            where = rng.choice(["end", "start", "split"])
+            blocks = {"end": [[spec["n"], count]], "start": [[0, count]],
+                      "split": [[0, count // 2], [rng.randint(0, spec["n"]), count - count // 2]]}[where]
+            out.append({"clause": "zerocol", "agg": agg, "matrix": spec, "blocks": blocks, "rseed": rng.randrange(10**6)})
+        if not thorough:
+            spec = _matrix_spec(rng, agg, "colperm", wide=True)
+            out.append({"clause": "colperm", "agg": agg, "matrix": spec, "perm": rng.sample(range(spec["n"]), spec["n"]),
+                        "rseed": rng.randrange(10**6)})
+        else:
+            for _ in range(6):
+                spec = _matrix_spec(rng, agg, "colperm", wide=True)
+                out.append({"clause": "colperm", "agg": agg, "matrix": spec,
+                            "perm": rng.sample(range(spec["n"]), spec["n"]), "rseed": rng.randrange(10**6)})
     return out
 
 
@@ -224,10 +292,53 @@ def _compare(case, sig, key, J, J2, back, what, extra_zero=None):
     return ok(sig, nontrivial)
 
 
+def _householder(x, y):
+    """The reflection H = I - 2 v v^T / v^T v with H x/|x| = y/|y| (identity when they already agree)."""
+    n = x.shape[0]
+    v = x / x.norm() - y / y.norm()
+    if float(v.norm()) < 1e-8:
+        return torch.eye(n, dtype=torch.float64)
+    v = v / v.norm()
+    return torch.eye(n, dtype=torch.float64) - 2.0 * torch.outer(v, v)
+
+
+def _q(case, J):
+    """Orthogonal Q (float64).  'haar' (default); 'house_row': the Householder reflection that maps row `qrow` of J onto
+    a coordinate axis, so that J Q has a row with ONE entry equal to its norm (entry-wise quantities change as much as
+    they can while J J^T is unchanged); 'house_axis': the reflection that maps the first axis to a random direction."""
+    n = J.shape[1]
+    kind = case.get("q", "haar")
+    if kind == "haar":
+        return _haar(n, case["qseed"])
+    g = torch.Generator().manual_seed(case["qseed"])
+    axis = torch.zeros(n, dtype=torch.float64)
+    axis[int(torch.randint(n, (1,), generator=g))] = 1.0
+    if kind == "house_row":
+        row = J[case.get("qrow", 0) % J.shape[0]].to(torch.float64)
+        if float(row.norm()) == 0.0:
+            return _haar(n, case["qseed"])
+        return _householder(row, axis)
+    if kind == "house_axis":
+        return _householder(axis, torch.randn(n, generator=g, dtype=torch.float64))
+    raise KeyError(kind)
+
+
+def _near_guard(agg_spec, Jn):
+    """sigma_max within rounding of the norm_eps guard of the normalised Gramian: the two sides of A(J Q) = A(J) Q may
+    legitimately fall on different sides of it (the statement is about the function of J J^T, which jumps there)."""
+    if agg_spec["name"] not in ("UPGrad", "DualProj", "CAGrad") or not min(Jn.shape):
+        return False
+    ne = agg_spec.get("norm_eps", 1e-4)
+    s = float(np.linalg.svd(Jn, compute_uv=False)[0])
+    return abs(s / ne - 1.0) <= 64 * sum(Jn.shape) * 2.220446049250313e-16
+
+
 def _orthogonal(case, sig):
     J = gen_matrix(case["matrix"])
     n = J.shape[1]
-    Q = _haar(n, case["qseed"])
+    if _near_guard(case["agg"], np64(J)):
+        return ok(sig, False, "sigma_max within rounding of norm_eps")
+    Q = _q(case, J)
     Qn = np64(Q)
     return _compare(case, sig, "C08.orthogonal", J, J @ Q, lambda v: v @ Qn.T, "A(J Q) Q^T differs from A(J)")
 
@@ -247,14 +358,28 @@ def _zerocol(case, sig):
     m, n = J.shape
     cols = [J[:, j:j + 1] for j in range(n)]
     new, keep, zero_idx = [], [], []
-    pos = list(case["positions"])
-    for j in range(n + 1):
-        for _ in range(pos.count(j)):
-            zero_idx.append(len(new))
-            new.append(torch.zeros(m, 1, dtype=J.dtype))
-        if j < n:
-            keep.append(len(new))
-            new.append(cols[j])
+    if "blocks" in case:  # [[position, count], ...]: `count` zero columns in front of column `position`
+        pos = [list(b) for b in case["blocks"]]
+        width = 0
+        for j in range(n + 1):
+            for (p_, cnt) in pos:
+                if p_ == j and cnt > 0:
+                    zero_idx.extend(range(width, width + cnt))
+                    new.append(torch.zeros(m, cnt, dtype=J.dtype))
+                    width += cnt
+            if j < n:
+                keep.append(width)
+                new.append(cols[j])
+                width += 1
+    else:
+        pos = list(case["positions"])
+        for j in range(n + 1):
+            for _ in range(pos.count(j)):
+                zero_idx.append(len(new))
+                new.append(torch.zeros(m, 1, dtype=J.dtype))
+            if j < n:
+                keep.append(len(new))
+                new.append(cols[j])
     J2 = torch.cat(new, dim=1)
     return _compare(case, sig, "C08.zerocol", J, J2, lambda v: v[keep],
                     f"inserting zero columns at {pos} changed the other coordinates", extra_zero=zero_idx)
